@@ -92,7 +92,8 @@ theorem only_unneeded_nodes_gone (s : Store) (candidates : List Hash) (kept : Li
 theorem cutoff_facts :
     F.rowCutoff = "row.Deleted && rowTime.Add(row.DeleteUpdateOffset.AsDuration()).Before(beforeTime)" ∧
     F.tombCutoff = "ts == 0 || ts >= cutoff" ∧
-    F.versionCutoff = "childRoot.Created == nil || childRoot.Created.After(olderThan)" := by
+    F.versionCutoff = "childRoot.Created == nil || childRoot.Created.After(olderThan)" ∧
+    F.purgeCutoffClamped = true := by
   decide
 
 /-- the boundary, on the model: cutoff 5 purges the marker of time 4 and keeps the one of time 5 -/
